@@ -1,7 +1,8 @@
 """C09 - parameters are resolved as GROMACS preprocessing would resolve them.
 
-spec/TypeResolve.tla    bonded part: P-layer Expected (exact / reversed key, least-wildcarded dihedral entry in either listing
-                        direction, all terms in every instance, macros), I-layer = the code's steps, TLC checks I = P
+spec/TypeResolve.tla    bonded part: P-layer Expected (cpp meaning of the #define / #ifdef / #ifndef / #else / #endif lines, then
+                        exact / reversed key, least-wildcarded dihedral entry in either listing direction, all terms in every
+                        instance, macros), I-layer = the code's steps (reader line by line, then preprocess), TLC checks I = P
 spec/TypeResolveNB.tla  non-bonded part: which entry a pair's parameters come from, C6/C12 -> sigma^6/eps as decimal rationals
 S->I : TypeResolveExport / TypeResolveNBExport cases rendered as real .top files (+ included .itp), read with
        Topology.from_gmx_topfile, preprocess(), projected and compared with the P-layer result printed by TLC.
@@ -68,20 +69,67 @@ def default_top(nb):
             "molecules": [{"name": "S", "n": 1}]}
 
 
-def render(top, nb, wd, layout=0):
-    """write the topology; layout 0: one file, 1: force field and every molecule type in included files. returns path"""
+PP_TEXT = {"ifdef": "#ifdef %s", "ifndef": "#ifndef %s", "else": "#else", "endif": "#endif"}
+LAYOUTS = (0, 1, 2, 3)
+
+
+def pp_line(d):
+    """one preprocessor line of the abstract input (top["defs"]) as text"""
+    if d["op"] == "define":
+        return ("#define %s %s" % (d["name"], " ".join(d["toks"]))).rstrip()
+    t = PP_TEXT[d["op"]]
+    return t % d["name"] if "%s" in t else t
+
+
+def pp_features(lines):
+    """what a sequence of preprocessor lines contains (only for the non-vacuity requirements and the evidence counts)"""
+    feats, blk = set(), None
+    for d in lines:
+        if d["op"] in ("ifdef", "ifndef"):
+            blk = {"tag": d["name"], "op": d["op"], "else": False, "own": False}
+            feats.add("block")
+        elif d["op"] == "else":
+            blk["else"] = True
+        elif d["op"] == "endif":
+            blk = None
+        elif blk is not None:
+            if d["name"] == blk["tag"]:
+                blk["own"] = True
+            elif d["name"].startswith("_FF_OPLS"):
+                feats.add("opls_in_block")
+            elif d["toks"]:
+                feats.add("macro_in_else" if blk["else"] else "macro_in_block")
+                if blk["own"] and blk["op"] == "ifndef" and not blk["else"]:
+                    feats.add("guard_then_macro")
+    return feats
+
+
+def render(top, nb, wd, layout=0, wrapok=False):
+    """write the topology; returns the path of the main file.
+    layout 0: one file; 1: force field and every molecule type in included files, the preprocessor lines in the main file;
+    2: as 1, the preprocessor lines at the top of the included force-field file; 3: as 2 and - when the lines end with the
+    #endif of a selected branch (wrapok, decided by the specification / known by construction) - that #endif closes the block
+    at the end of the force-field file instead (the include-guard layout: every directive of the file inside the block)"""
     wd = Path(wd)
     wd.mkdir(parents=True, exist_ok=True)
     bt = {e["t"]: e["b"] for e in top["btype"]}
     head = ["; C09 case (layout %d)" % layout]
+    pp = []
     if top["opls"]:
-        head.append("#define _FF_OPLS" if layout == 0 else "#define _FF_OPLS_AA")
+        pp.append("#define _FF_OPLS" if layout == 0 else "#define _FF_OPLS_AA")
     for d in top["defs"]:
-        head.append("#define %s %s" % (d["name"], " ".join(d["toks"])))
+        pp.append(pp_line(d))
+    closing = []
+    if layout == 3 and wrapok and pp and pp[-1] == "#endif":
+        closing = [pp.pop()]
+    if layout < 2:
+        head += pp
     ff = ["[ defaults ]", "; nbfunc comb-rule gen-pairs fudgeLJ fudgeQQ",
           "1 %d %s 1.0 1.0" % (nb["comb"], "yes" if nb["gen"] else "no"), "[ atomtypes ]"]
+    if layout >= 2:
+        ff = pp + ff
     for i, a in enumerate(nb["atypes"]):
-        if top["opls"]:
+        if bt:
             ff.append("%s %s 6 12.011 0.000 A %s %s" % (a["name"], bt.get(a["name"], a["name"]), a["v1"], a["v2"]))
         elif (i + layout) % 2:
             ff.append("%s 6 12.011 0.000 A %s %s" % (a["name"], a["v1"], a["v2"]))
@@ -117,7 +165,7 @@ def render(top, nb, wd, layout=0):
         lines += tail
     else:
         (wd / "ff").mkdir(exist_ok=True)
-        (wd / "ff" / "ffparams.itp").write_text("\n".join(ff) + "\n")
+        (wd / "ff" / "ffparams.itp").write_text("\n".join(ff + closing) + "\n")
         lines = head + ['#include "ff/ffparams.itp"']
         for name, m in mols:
             (wd / ("mol_%s.itp" % name)).write_text("\n".join(m) + "\n")
@@ -253,7 +301,7 @@ def _case_dir(tag, n):
 def check_bonded_case(case, wd, layout):
     """returns None | (what, sig, detail)"""
     top = case["top"]
-    path = render(top, default_nb(top), wd, layout)
+    path = render(top, default_nb(top), wd, layout, bool(case.get("wrapok")))
     status, t = run_real(path)
     if status == "exception":
         return ("the code raised on an in-domain topology (%s)" % t, None, {"exception": t})
@@ -312,29 +360,37 @@ def _replay_chunk(arg):
     tag, items = arg
     out = []
     wd = _case_dir(tag, 0)
-    for idx, case in items:
+    for idx, layout, case in items:
         try:
-            r = check_bonded_case(case, wd, idx % 2) if tag != "nb" else check_nb_case(case, wd, idx % 2)
+            r = check_bonded_case(case, wd, layout) if tag != "nb" else check_nb_case(case, wd, layout)
         except c.MachineryError:
             raise
         except Exception as exc:  # projection failed on a misbehaving tree: report, do not crash
             r = ("projection failed: %s: %s" % (type(exc).__name__, exc), None, {})
         if r:
-            out.append((idx, r))
+            out.append((idx, layout, r))
     shutil.rmtree(wd, ignore_errors=True)
     return out, len(items)
 
 
-def replay_cases(ck, cases, tag):
-    idx = list(enumerate(cases))
+def layout_of(i):
+    """layout of case i when every case is replayed once: even cases one file, odd cases the three include layouts in turn"""
+    return 0 if i % 2 == 0 else 1 + (i // 2) % 3
+
+
+def replay_cases(ck, cases, tag, cycle=False, all_layouts=False):
+    """replay every case on the real code under layout_of(index); cycle: the four layouts in turn; all_layouts: every case
+    under each of the four layouts"""
+    lays = (lambda i: LAYOUTS) if all_layouts else (lambda i: (LAYOUTS[i % 4],)) if cycle else (lambda i: (layout_of(i),))
+    idx = [(i, lay, cs) for i, cs in enumerate(cases) for lay in lays(i)]
     nbad = 0
     for bad, n in c.pmap(_replay_chunk, [(tag, ch) for ch in c.chunks(idx, c.NPROC * 3)]):
         ck.evaluations += n
-        for i, (what, sig, detail) in bad:
+        for i, lay, (what, sig, detail) in bad:
             nbad += 1
-            ck.violation({"kind": "S->I " + tag, "case": cases[i], "layout": i % 2, "detail": detail},
-                         what="%s case %d: %s" % (tag, i, what))
-    ck.replayed += len(cases)
+            ck.violation({"kind": "S->I " + tag, "case": cases[i], "layout": lay, "detail": detail},
+                         what="%s case %d (layout %d): %s" % (tag, i, lay, what))
+    ck.replayed += len(idx)
     for cs in cases:
         ck.nontrivial.add(hashlib.sha1(json.dumps(cs.get("top", cs.get("nb")), sort_keys=True).encode()).hexdigest())
     return nbad
@@ -351,8 +407,49 @@ def _num(rng, lo=0.05, hi=900.0):
     return rng.choice(["%.3f", "%.5e", "%.1f"]) % v
 
 
-def gen_topology(rng, big=False):
-    """one random abstract input (top, nb) beyond the exhaustive bound"""
+def gen_pp(rng, defs, opls):
+    """the preprocessor lines of a random input: the macro definitions (and, sometimes, the OPLS tag as a line of its own),
+    half of the time with a run of them inside one #ifdef / #ifndef block.  Every #define sits outside the block or in its
+    selected branch (the stated domain; membership is decided by TLC, not here).  Returns (lines, opls flag left for the
+    unconditional first line, wrapok: the lines end with the #endif of a selected branch)"""
+    lines = [{"op": "define", "name": d["name"], "toks": list(d["toks"])} for d in defs]
+    if opls and rng.random() < 0.5:
+        lines.insert(rng.randint(0, len(lines)), {"op": "define", "name": rng.choice(["_FF_OPLS", "_FF_OPLS_AA"]), "toks": []})
+        opls = False
+    if rng.random() < 0.5:
+        return lines, opls, False
+    i = rng.randint(0, len(lines))
+    j = len(lines) if rng.random() < 0.5 else rng.randint(i, len(lines))
+    pre, inside, post = lines[:i], lines[i:j], lines[j:]
+    tag = "C09_TAG_%d" % rng.randint(1, 9)
+    deftag = {"op": "define", "name": tag, "toks": []}
+    pl = lambda op, name="": {"op": op, "name": name, "toks": []}
+    form = rng.choice(["guard", "guard", "ifdef", "else-ifdef", "else-ifndef", "ifndef-late"])
+    empty_else = rng.random() < 0.3
+    if form == "guard":          # #ifndef TAG / #define TAG / macros / #endif
+        k = rng.choice([0, 0, len(inside)])
+        body = inside[:k] + [deftag] + inside[k:]
+        out = pre + [pl("ifndef", tag)] + body + ([pl("else")] if empty_else else []) + [pl("endif")] + post
+        last_selected = not empty_else
+    elif form == "ifdef":        # #define TAG ... #ifdef TAG / macros / #endif
+        out = [deftag] + pre + [pl("ifdef", tag)] + inside + ([pl("else")] if empty_else else []) + [pl("endif")] + post
+        last_selected = not empty_else
+    elif form == "else-ifdef":   # #ifdef TAG (not defined) / #else / macros / #endif, the tag possibly defined later
+        late = [deftag] if rng.random() < 0.5 else []
+        k = rng.choice([0, len(inside)])
+        out = pre + [pl("ifdef", tag), pl("else")] + inside[:k] + late + inside[k:] + [pl("endif")] + post
+        last_selected = True
+    elif form == "else-ifndef":  # #define TAG ... #ifndef TAG / #else / macros / #endif
+        out = [deftag] + pre + [pl("ifndef", tag), pl("else")] + inside + [pl("endif")] + post
+        last_selected = True
+    else:                        # #ifndef TAG / macros / #endif ... #define TAG
+        out = pre + [pl("ifndef", tag)] + inside + ([pl("else")] if empty_else else []) + [pl("endif"), deftag] + post
+        last_selected = not empty_else
+    return out, opls, bool(last_selected and out[-1]["op"] == "endif")
+
+
+def gen_topology(rng, big=False, hints=None):
+    """one random abstract input (top, nb) beyond the exhaustive bound; hints (a dict) receives rendering hints"""
     ntypes = rng.randint(4, 9 if big else 7)
     types = rng.sample(TYPE_POOL, ntypes)
     opls = rng.random() < 0.3
@@ -481,7 +578,10 @@ def gen_topology(rng, big=False):
     molecules = []
     for _ in range(rng.randint(1, 6)):
         molecules.append({"name": rng.choice(mols)["name"], "n": rng.randint(1, 40 if big else 8)})
-    top = {"opls": opls, "btype": btype, "defs": defs, "tables": tables, "mols": mols, "molecules": molecules}
+    pp, opls_first, wrapok = gen_pp(rng, defs, opls)
+    if hints is not None:
+        hints["wrapok"] = wrapok
+    top = {"opls": opls_first, "btype": btype, "defs": pp, "tables": tables, "mols": mols, "molecules": molecules}
     # non-bonded part
     comb = rng.choice([1, 1, 2, 3])
     at = []
@@ -527,20 +627,23 @@ def _record_chunk(arg):
     wd = _case_dir("rec", 0)
     for sd in seeds:
         rng = random.Random(sd)
-        top, nb = gen_topology(rng, big)
-        path = render(top, nb, wd, sd % 2)
+        hints = {}
+        top, nb = gen_topology(rng, big, hints)
+        lay = LAYOUTS[sd % 4]
+        path = render(top, nb, wd, lay, hints["wrapok"])
         status, t = run_real(path)
         if status == "exception":
-            out.append({"seed": sd, "top": top, "nbtok": nb, "exception": t})
+            out.append({"seed": sd, "top": top, "nbtok": nb, "layout": lay, "wrapok": hints["wrapok"], "exception": t})
             continue
         try:
             obs, nbobs = observe(t, status, nb["comb"])
         except c.MachineryError:
             raise
         except Exception as exc:
-            out.append({"seed": sd, "top": top, "nbtok": nb, "exception": "projection failed: %s: %s" % (type(exc).__name__, exc)})
+            out.append({"seed": sd, "top": top, "nbtok": nb, "layout": lay, "wrapok": hints["wrapok"],
+                        "exception": "projection failed: %s: %s" % (type(exc).__name__, exc)})
             continue
-        out.append({"seed": sd, "top": top, "nbtok": nb, "nb": nb_abstract(nb), "obs": obs, "nbobs": nbobs})
+        out.append({"seed": sd, "top": top, "nbtok": nb, "layout": lay, "wrapok": hints["wrapok"], "nb": nb_abstract(nb), "obs": obs, "nbobs": nbobs})
     shutil.rmtree(wd, ignore_errors=True)
     return out
 
@@ -557,7 +660,7 @@ def abstract_from_topology(t):
     """abstract input of an already parsed (not yet preprocessed) Topology: used for the repository's own topologies"""
     opls = "_FF_OPLS" in t.defines or "_FF_OPLS_AA" in t.defines
     btype = [{"t": n, "b": str(a.get("bond_type"))} for n, a in t.atom_types.items()] if opls else []
-    defs = [{"name": n, "toks": [str(x) for x in v]} for n, v in t.defines.items() if isinstance(v, (list, tuple))]
+    defs = [{"op": "define", "name": n, "toks": [str(x) for x in v]} for n, v in t.defines.items() if isinstance(v, (list, tuple))]
     tables = {k: [] for k in KINDS}
     for kind in KINDS:
         for key, terms in t.types.get(kind, {}).items():
@@ -731,6 +834,11 @@ SENS = [("TypeResolveExport", "TR_dev_onedir.cfg", "Conforms", "F4 (repaired): p
         ("TypeResolveExport", "TR_dev_definefirst.cfg", "Conforms", "macros substituted in the first interaction only"),
         ("TypeResolveExport", "TR_dev_pairs.cfg", "Conforms", "F20 (repaired): pairs never looked up in pairtypes"),
         ("TypeResolveExport", "TR_dev_tblmacro.cfg", "Conforms", "F19 (repaired): macros in type-table entries kept"),
+        ("TypeResolveExport", "TR_dev_lazycond.cfg", "Conforms", "a #define inside a block recorded only if the block's condition still holds at that line "
+                                                                 "(include guard: everything after the guard's own #define dropped)"),
+        ("TypeResolveExport", "TR_dev_blockdropped.cfg", "Conforms", "a #define inside any #ifdef / #ifndef block ignored"),
+        ("TypeResolveExport", "TR_find_inactive.cfg", "Conforms", "reported finding, outside the stated domain: the reader records a #define of a branch "
+                                                                  "that is not selected (this is why such inputs are not judged)"),
         ("TypeResolveNBExport", "TR_nb_dev_override.cfg", "NConforms", "generated pairs overwrite nonbond_params"),
         ("TypeResolveNBExport", "TR_nb_dev_eps.cfg", "NConforms", "eps = C6^2/(2 C12)"),
         ("TypeResolveNBExport", "TR_nb_dev_sigma.cfg", "NConforms", "sigma^6 = C6/C12"),
@@ -739,7 +847,7 @@ HOLD = [("TypeResolveExport", "TR_devhold_pairs.cfg", "I-layer with DevPairsUnty
         ("TypeResolveExport", "TR_devhold_tblmacro.cfg", "I-layer with DevTableMacrosKept = P-layer with the table-macro deviation")]
 
 
-ACTIONS = ["ReplaceDefines", "SkipItem", "NextKind", "BeginLookup", "LookupExact", "LookupReversed", "PatternTry", "ApplyTerms", "EndBlock",
+ACTIONS = ["PragmaIf", "PragmaElse", "PragmaEndif", "PragmaDefine", "ReplaceDefines", "SkipItem", "NextKind", "BeginLookup", "LookupExact", "LookupReversed", "PatternTry", "ApplyTerms", "EndBlock",
            "Propagate", "NextBlock", "GenPair", "GenDone", "SelfTerm", "SelfDone", "Convert", "ConvertDone"]
 
 
@@ -752,13 +860,17 @@ def run(tier):
                "macro in the entry), macro styles (5 styles^3 bonds x angle styles x instances, two molecule types), non-bonded (1-3 atom types "
                "x every subset of the unordered pairs in nonbond_params x name order x gen-pairs x comb-rule 1-3, and a 6x6 grid of C6/C12); a "
                "case is distinct by its abstract input. I->S: one record per seeded random topology (4-9 atom types, 1-4 molecule types with "
-               "mixed interaction kinds, up to 6 [ molecules ] lines with up to 40 instances each, random nonbond_params) or repository topology")
+               "mixed interaction kinds, up to 6 [ molecules ] lines with up to 40 instances each, random nonbond_params, the macro definitions and the OPLS tag half of the time inside an "
+               "#ifdef / #ifndef block: include guard, tag defined before, #else branch, tag defined later) or repository topology")
     ck.assumptions = [
         "no ties: two different keys of equal wildcard count matching one interaction, a key and its reverse both listed, a repeated key outside "
         "dihedraltypes, a pair listed twice in nonbond_params (TLC decides membership; such records are skipped and counted)",
         "the combination rule is not asserted (DESIGN N1): a generated mixed pair must exist and, under comb-rule 1, its sigma/eps must reproduce "
         "what gen_pairs produced",
-        "one function type per type table; macros defined before use, outside conditionals, macro bodies free of macro names",
+        "one function type per type table; macros defined before use, macro bodies free of macro names, a tag (macro without value) never used "
+        "as a parameter; #ifdef / #ifndef blocks around #define lines are balanced and not nested, contain no #include, and every #define sits "
+        "outside the block or in its selected branch (cpp: decided where the block opens) - the reader also records a #define of a branch that is "
+        "not selected (reported finding; TLC shows it on the small instance, TR_find_inactive), such inputs are not judged",
         "bond types are used only when _FF_OPLS / _FF_OPLS_AA is defined (DESIGN 4.9); [ impropers ] has no types directive and is not generated",
         "a [ pairs ] entry without parameters is in the domain only when a matching [ pairtypes ] entry exists (the generation of 1-4 parameters "
         "from atom types is not claimed)",
@@ -768,45 +880,69 @@ def run(tier):
     dih_cfg = "TR_dih_quick.cfg" if tier == "quick" else "TR_dih_full.cfg"
     jobs = [("TypeResolveExport", dih_cfg, {"workers": max(2, c.NPROC // 2), "timeout": 3000, "coverage": True}),
             ("TypeResolveExport", "TR_plain.cfg", {"workers": 2, "coverage": True}),
-            ("TypeResolveNBExport", "TR_nb.cfg", {"workers": 2, "coverage": True})]
+            ("TypeResolveNBExport", "TR_nb.cfg", {"workers": 2, "coverage": True}),
+            ("TypeResolveExport", "TR_cond.cfg" if tier == "quick" else "TR_cond_full.cfg", {"workers": 2, "coverage": True})]
     jobs += [(m, cfg, {"workers": 1, "check": False}) for m, cfg, _, _ in SENS]
-    jobs += [(m, cfg, {"workers": 1}) for m, cfg, _ in HOLD]
+    # the two runs that back the diagnostic hint for the repaired F19 / F20 are not needed for a verdict: thorough tier only
+    hold = HOLD if tier != "quick" else []
+    jobs += [(m, cfg, {"workers": 1}) for m, cfg, _ in hold]
     res = c.tlc_many(jobs)
-    dih, plain, nbx = res[:3]
-    for r, what in zip(res[:3], ("dihedral family", "plain/macro families", "non-bonded family")):
+    NMAIN = 4
+    dih, plain, nbx, cond = res[:NMAIN]
+    for r, what in zip(res[:NMAIN], ("dihedral family", "plain/macro families", "non-bonded family", "preprocessor-line family: every combination, #define lines in branches not "
+                                                   "selected included, intended reader")):
         ck.model_must_hold(r, "I = P (%s)" % what)
     idle = [a for a in ACTIONS if not ck.actions.get(a)]
     if idle:
         raise c.MachineryError("I-layer actions never taken in the exhaustive instance (vacuous): %s" % idle)
-    for r, (_, _, inv, what) in zip(res[3:3 + len(SENS)], SENS):
+    for r, (_, _, inv, what) in zip(res[NMAIN:NMAIN + len(SENS)], SENS):
         ck.model_must_refute(r, inv, what)
-    for r, (_, _, what) in zip(res[3 + len(SENS):], HOLD):
+    for r, (_, _, what) in zip(res[NMAIN + len(SENS):], hold):
         ck.model_must_hold(r, what)
-    cases_d, cases_p, cases_n = dih.cases(), plain.cases(), nbx.cases()
-    if not cases_d or not cases_p or not cases_n:
-        raise c.MachineryError("an export produced no cases: %d %d %d" % (len(cases_d), len(cases_p), len(cases_n)))
+    cases_d, cases_p, cases_n, cases_c = dih.cases(), plain.cases(), nbx.cases(), cond.cases()
+    if not cases_d or not cases_p or not cases_n or not cases_c:
+        raise c.MachineryError("an export produced no cases: %d %d %d %d" % (len(cases_d), len(cases_p), len(cases_n), len(cases_c)))
+    # non-vacuity of the preprocessor-line family: the include-guard idiom with macros after the guard's own #define, a macro
+    # in an #else branch, the OPLS tag inside a block, a block closed at the end of the file
+    feats = [pp_features(cs["top"]["defs"]) for cs in cases_c]
+    nguard, nelse, noplsin = (sum(1 for f in feats if k in f) for k in ("guard_then_macro", "macro_in_else", "opls_in_block"))
+    nwrap = sum(1 for cs in cases_c if cs.get("wrapok"))
+    if not (nguard and nelse and noplsin and nwrap):
+        raise c.MachineryError("preprocessor-line family is vacuous: include guard %d, macro in #else %d, OPLS tag in a block %d, closable %d" % (
+            nguard, nelse, noplsin, nwrap))
     # non-vacuity of the export: the interesting classes must be present
     nmulti = sum(1 for cs in cases_d if not cs["exp"]["err"] and len(cs["exp"]["inst"]) > 1 and len(cs["exp"]["inst"][-1]["inter"]["dihedrals"]) > 1)
     nerr = sum(1 for cs in cases_d + cases_p if cs["exp"]["err"])
     if not nmulti or not nerr:
         raise c.MachineryError("export is vacuous: multi-term multi-instance cases %d, unmatched cases %d" % (nmulti, nerr))
+    nlay = 1 if tier == "quick" else len(LAYOUTS)
     ck.extra["cases"] = {"dihedral": len(cases_d), "plain_macro": len(cases_p), "nonbonded": len(cases_n),
+                         "preprocessor_lines": len(cases_c), "preprocessor_lines_replays": len(cases_c) * nlay,
+                         "include_guard_then_macro": nguard, "macro_in_else_branch": nelse, "opls_tag_in_block": noplsin,
+                         "block_closable_at_end_of_file": nwrap,
                          "multi_term_in_later_instance": nmulti, "nothing_matches": nerr}
     ck.sample({"S->I dihedral case": {"table": cases_d[len(cases_d) // 2]["top"]["tables"]["dihedrals"],
                                       "dihedral": cases_d[len(cases_d) // 2]["top"]["mols"][0]["inter"]["dihedrals"],
                                       "molecules": cases_d[len(cases_d) // 2]["top"]["molecules"],
                                       "expected": cases_d[len(cases_d) // 2]["exp"]}})
     ck.sample({"S->I non-bonded case": cases_n[len(cases_n) // 3]})
-    ck.stage("replay %d + %d + %d cases on the real code" % (len(cases_d), len(cases_p), len(cases_n)))
+    ck.sample({"S->I preprocessor-line case": {"lines": [pp_line(d) for d in cases_c[len(cases_c) // 2]["top"]["defs"]],
+                                               "bonds expected": cases_c[len(cases_c) // 2]["exp"]["inst"][0]["inter"]["bonds"]}})
+    ck.stage("replay %d + %d + %d + %d x %d cases on the real code" % (len(cases_d), len(cases_p), len(cases_n), len(cases_c), nlay))
     replay_cases(ck, cases_d, "dihedral")
     replay_cases(ck, cases_p, "plain")
     replay_cases(ck, cases_n, "nb")
+    replay_cases(ck, cases_c, "cond", cycle=True, all_layouts=(tier != "quick"))
     ck.stage("I->S: record seeded random topologies and repository topologies")
     nrec = 240 if tier == "quick" else 3000
     recs = record_random(nrec, sd)
     big = record_random(40 if tier == "quick" else 500, sd + 1, big=True)
     repo = record_repo(ck)
-    ck.extra["records"] = {"random": len(recs), "random_large": len(big), "repository": len(repo)}
+    ck.extra["records"] = {"random": len(recs), "random_large": len(big), "repository": len(repo),
+                           "with_conditional_block": sum(1 for r in recs + big if "block" in pp_features(r["top"]["defs"])),
+                           "with_include_guard": sum(1 for r in recs + big if "guard_then_macro" in pp_features(r["top"]["defs"]))}
+    if not ck.extra["records"]["with_include_guard"]:
+        raise c.MachineryError("no recorded topology with an include guard: the random inputs are vacuous for the preprocessor lines")
     ex = [r for r in recs if "exception" not in r]
     if ex:
         r0 = ex[0]
@@ -844,12 +980,12 @@ def replay(path):
         return 0
     rec = case["record"]
     if "exception" in rec:
-        render(rec["top"], rec.get("nbtok") or default_nb(rec["top"]), wd, 0)
+        render(rec["top"], rec.get("nbtok") or default_nb(rec["top"]), wd, rec.get("layout", 0), bool(rec.get("wrapok")))
         status, t = run_real(wd / "topol.top")
         print("replayed: %s" % ("still raises: %s" % t if status == "exception" else "no exception now"))
         return 1 if status == "exception" else 0
     if "nbtok" in rec:   # re-run the real code on the recorded input
-        path = render(rec["top"], rec["nbtok"], wd, 0)
+        path = render(rec["top"], rec["nbtok"], wd, rec.get("layout", 0), bool(rec.get("wrapok")))
         status, t = run_real(path)
         if status == "exception":
             print("replayed: the code raises now: %s" % t)
